@@ -25,6 +25,32 @@ def loc_ok_concrete(msg, text):
     return False
 
 
+FRAME_WINDOW = {"quick": 4, "thorough": 5}
+FRAME_ALPHABET = "0123789abfxXuUlLeEpP.+-'\"\\ "
+FRAMES = [("int x=", ";"), ("int x[", "];"), ("char*s=\"a\"", ";"), ("void f(void){x=1", ";}"), ("# 1 \"f.c\"", "\nint x;"), ("#line 1", "\nint x;"), ("enum e{A=", "};")]
+
+
+def once_on(P, Lmod, base):
+    eng = E.cur()
+    parser = P.CParser(lexer=Lmod.CLexer)
+    try:
+        parser.parse(SymText(base), FILENAME)
+    except P.ParseError as e:
+        if LOC.match(str(e)) or re.match(r"^(.*?)(:\d+(:\d+)?)?: ", str(e), re.S):
+            # framed windows may rename the file through a directive: the replay applies loc_ok_concrete
+            return {"cls": "ParseError", "witness": {"chr-ParseError": True}}
+        sig = tokharness.exc_signature(e)
+        return {"cls": "badloc", "viol": {"sig": "badloc:" + sig["sig"], "kind": "badloc", "text": base.witness(eng.model())}}
+    except RecursionError:
+        return {"cls": "RecursionError"}
+    except E.HarnessError:
+        raise
+    except Exception as e:
+        sig = tokharness.exc_signature(e)
+        return {"cls": "OTHER:" + sig["type"], "viol": {"sig": sig["sig"], "kind": "exc", "exc": sig, "text": base.witness(eng.model())}}
+    return {"cls": "accept", "witness": {"chr-accept": True}}
+
+
 def run(report, findings, rp):
     Lmod = symlexer.load()
     P = symparser.load()
@@ -65,6 +91,34 @@ def run(report, findings, rp):
         report.add_run(job.name, res)
         for v in res.violations:
             cands.setdefault(v["sig"], []).append(v)
+    # framed windows: a fixed accepted frame with a window of free characters in it, real lexer + real parser;
+    # reaches the code that looks INSIDE token spellings (constants, string pieces, line-directive payloads)
+    from symx.engine import IntervalSet
+
+    W = FRAME_WINDOW[checklib.tier()]
+    lit = IntervalSet([(ord(ch), ord(ch)) for ch in FRAME_ALPHABET])
+    report.bounds["framed_windows"] = {"frames": [f"{a}<window>{b}" for a, b in FRAMES], "window_max": W, "window_alphabet": FRAME_ALPHABET}
+    for fi, (pre, suf) in enumerate(FRAMES):
+        for n in range(1, W + 1):
+            total = len(pre) + n + len(suf)
+            base = SymBase(total, name="c", minlen=total)
+            fixed = list(pre) + [None] * n + list(suf)
+
+            def make_engine(base=base, fixed=fixed):
+                eng = E.Engine()
+                for i, ch in enumerate(fixed):
+                    d = lit if ch is None else IntervalSet.of(ord(ch))
+                    eng.base_dom[(base.name, i)] = d
+                    eng.solver.add(eng.iv_expr((base.name, i), base.chars[i], d))
+                eng.base_dom[(base.name, "len")] = frozenset([len(fixed)])
+                eng.solver.add(base.length == len(fixed))
+                return eng
+
+            job = E.Job(f"frame{fi}/{n}:{pre}<{n}>{suf}".replace("\n", "\\n"), make_engine, (lambda base=base: once_on(P, Lmod, base)), split=("input", len(pre) + 1), max_viol=30)
+            res = E.run_job(job, workers=None if n >= 3 else 1)
+            report.add_run(job.name, res)
+            for v in res.violations:
+                cands.setdefault(v["sig"], []).append(v)
     report.functions |= {"pycparser/c_lexer.py:CLexer.token/_match_token/_handle_ppline/_handle_pppragma (sre model)"}
     for sig, vs in sorted(cands.items()):
         vs.sort(key=lambda v: (len(v["text"]), v["text"]))
